@@ -495,6 +495,62 @@ theorem cache_store_stays_sound {cfg : Cfg} {P : Params α} {den : Key → α} (
   intro k v hk
   exact storeAfter_sound s'.log hB.snapSound store hsound k v (hevict k v hk)
 
+/-! ## full statements (no `StartOK` hypothesis) -/
+
+theorem profiler_faithful_full {cfg : Cfg} {P : Params α} {rank : Key → Nat} {st0 : State α}
+    (h : C01.Hyp cfg rank) (hG : GraphOK cfg.g cfg.results) (hst : startState cfg P = .ok st0)
+    (choices : List Nat) (s' : Sys α) (o : Outcome) (hrun : mainLoop cfg P choices (sys0 st0) = .ok (s', o))
+    (clock : Nat → Nat) (hmono : ∀ i j, i ≤ j → clock i ≤ clock j) (b : Bool) (res0 : List (Key × Nat × Nat)) :
+    ∃ p' entries, profRun clock 0 { pend := [], results := res0 } (s'.log ++ [(Ev.finish b, s'.st)]) = .ok p' ∧
+      p'.results = res0 ++ entries ∧ (entries.map (·.1)).Nodup ∧
+      (∀ k, k ∈ entries.map (·.1) ↔ k ∈ s'.st.finished) ∧ ∀ e ∈ entries, e.2.1 ≤ e.2.2 :=
+  profiler_faithful h (C01.startOK_of_eq h hG hst) choices s' o hrun clock hmono b res0
+
+/-- the patched graph is still a closed graph -/
+theorem patch_graphOK {g : Graph} {results : List Key} (hG : GraphOK g results) (store : Map α) :
+    GraphOK (patchGraph g store) results := by
+  have hsome : ∀ k nd, g.get? k = some nd → ∃ nd', (patchGraph g store).get? k = some nd' := by
+    intro k nd hk
+    rw [get?_patchGraph, hk]
+    split
+    · exact ⟨_, rfl⟩
+    · exact ⟨_, rfl⟩
+  have htask : ∀ k deps, (patchGraph g store).get? k = some (.task deps) → g.get? k = some (.task deps) := by
+    intro k deps hk
+    rw [get?_patchGraph] at hk
+    split at hk
+    · cases hg : g.get? k with
+      | none => rw [hg] at hk; cases hk
+      | some nd => rw [hg] at hk; cases hk
+    · exact hk
+  refine ⟨?_, ?_, ?_⟩
+  · intro k deps d hk hd
+    obtain ⟨nd, hnd⟩ := hG.closed k deps d (htask k deps hk) hd
+    exact hsome d nd hnd
+  · intro k deps hk
+    exact hG.depsNodup k deps (htask k deps hk)
+  · intro r hr
+    obtain ⟨nd, hnd⟩ := hG.resultsIn r hr
+    exact hsome r nd hnd
+
+/-- **`cache_transparent`, full**: for every closed acyclic graph, every store of denoted values and every
+completion order, the computation the scheduler performs after `Cache._start` patched the graph returns the
+values the ORIGINAL graph denotes. -/
+theorem cache_transparent_full {cfg : Cfg} {P : Params α} {rank : Key → Nat}
+    (h : C01.Hyp cfg rank) (hG : GraphOK cfg.g cfg.results)
+    (store : Map α) (hsound : StoreSound (C01.den cfg P rank) store) {st0 : State α}
+    (hst : startState { cfg with g := patchGraph cfg.g store } (patchParams P store) = .ok st0)
+    (choices : List Nat) (s' : Sys α)
+    (hrun : mainLoop { cfg with g := patchGraph cfg.g store } (patchParams P store) choices (sys0 st0) = .ok (s', .done))
+    (req : Req) (hreq : ∀ k ∈ req.flat, k ∈ cfg.results) :
+    nestedGet s'.st.cache.get? req = nestedGet (fun k => some (C01.den cfg P rank k)) req := by
+  have hden := C01.den_fixpoint cfg P rank h
+  obtain ⟨st1, h1, h2⟩ := startState_ok { cfg with g := patchGraph cfg.g store } (patchParams P store)
+    (patch_isDen hden hsound) (patch_graphOK hG store)
+  rw [hst] at h1
+  cases h1
+  exact cache_transparent hden rank h.acyclic h.nw h.cs store hsound h2 choices s' hrun req hreq
+
 /-! non-vacuity: the profiler over the diamond run of C01 with the clock `i ↦ 10 * i` -/
 example : (profRun (fun i => 10 * i) 0 {} (getAsync (C01.exCfg 1) C01.exP [1, 0, 0]).log).toOption.map (·.results)
     = some [(3, 80, 100), (1, 20, 70), (2, 30, 60)] := by decide
